@@ -96,12 +96,14 @@ InitState ==
    \* the thread that called Node.stop(): phase none | begin | wait | joinio | joinstats | done
    stop |-> [phase |-> "none", force |-> FALSE, wait |-> 0, until |-> 0, wake |-> 0, ioStop |-> FALSE, k |-> 0],
    listen |-> "open",                      \* the listening socket
+   stats |-> [alive |-> TRUE, wake |-> 2, stop |-> FALSE],      \* Node._collect_stats: sleeps 2 s at a time, tests its stop flag after each
    \* ThreadingApplication: request queue, result queue, thread slots in use, the two consumer threads, worker threads
    tapp |-> [a \in Apps |-> [recvQ |-> <<>>, respQ |-> <<>>, slots |-> 0,
                              recv |-> [alive |-> TRUE, st |-> "get", dl |-> 3, cur |-> <<>>, stop |-> FALSE],   \* dl: end of the current queue.get(timeout=3) / put(timeout=5)
                              resp |-> [alive |-> TRUE, dl |-> 3, stop |-> FALSE],
                              procs |-> <<>>]],
    nproc |-> 0,
+   lostOut |-> 0,
    out |-> <<>>]
 
 Emit(S, e) == [S EXCEPT !.out = Append(@, e)]
@@ -184,10 +186,14 @@ RemovePeerConnection(S, c, reason) ==
   IN [S3 EXCEPT !.appReady = [a \in Apps |-> IF AnyPeerReady(S3, a) THEN S3.appReady[a] ELSE FALSE]]
 
 \* Node.close_connection_socket
+\* (lostOut counts messages the node had accepted for a connection and dropped by closing it cleanly - R_CLEAN - with the
+\*  message still queued or buffered: a history variable for the interleaving-quantified invariant NoOutputLost)
 CloseConnectionSocket(S, c, reason) ==
-  LET S1 == IF InSeq(c, S.peerSockets) /\ S.conn[c].added
-            THEN ConnClose(Emit([S EXCEPT !.conn[c].sock = "closed"], [ev |-> "sock_close", c |-> c]), c, FALSE)
-            ELSE S
+  LET S0 == IF reason = R_CLEAN /\ S.conn[c].st = "CLOSING" /\ InSeq(c, S.peerSockets) /\ S.conn[c].added
+            THEN [S EXCEPT !.lostOut = @ + Len(S.conn[c].writeQ) + Len(S.conn[c].wbuf)] ELSE S
+      S1 == IF InSeq(c, S0.peerSockets) /\ S0.conn[c].added
+            THEN ConnClose(Emit([S0 EXCEPT !.conn[c].sock = "closed"], [ev |-> "sock_close", c |-> c]), c, FALSE)
+            ELSE S0
   IN RemovePeerConnection(S1, c, reason)
 
 \* Node._add_peer_connection  (-> state; the connection is "added" or its socket is closed)
@@ -565,12 +571,14 @@ TSend(S, a, ans, who, pin) ==
 StartWorker(S, a, x) == [S EXCEPT !.tapp[a].slots = @ + 1, !.nproc = @ + 1,
                                    !.tapp[a].procs = Append(@, [id |-> S.nproc + 1, c |-> x.c, m |-> x.m, st |-> "new", wake |-> 0]),
                                    !.tapp[a].recv.st = "top", !.tapp[a].recv.cur = <<>>]
+\* (n < 0: a single loop iteration - the thread stops at its next queue.get even if an item is waiting)
 RECURSIVE AppRecvRun(_, _, _)
 AppRecvRun(S, a, n) ==
   LET T == S.tapp[a] IN
   IF n = 0 \/ ~T.recv.alive THEN S
   ELSE IF T.recv.st = "top"                                 \* loop top: stop test, then queue.get(timeout=3)
   THEN IF T.recv.stop THEN [S EXCEPT !.tapp[a].recv.alive = FALSE]
+       ELSE IF n < 0 THEN [S EXCEPT !.tapp[a].recv.st = "get", !.tapp[a].recv.dl = S.now + 3]
        ELSE AppRecvRun([S EXCEPT !.tapp[a].recv.st = "get", !.tapp[a].recv.dl = S.now + 3], a, n - 1)
   ELSE IF T.recv.st = "slot"
   THEN IF Unlimited(a) \/ T.slots < AppCfg[a].max THEN AppRecvRun(StartWorker(S, a, T.recv.cur), a, n - 1)
@@ -593,6 +601,7 @@ AppRecvEnabled(S, a) ==
      \/ T.recv.st = "top"
      \/ T.recv.st = "slot" /\ (Unlimited(a) \/ T.slots < AppCfg[a].max \/ S.now >= T.recv.dl)
 AppRecvStep(S, a) == AppRecvRun(S, a, 50)
+AppRecvOne(S, a) == AppRecvRun(S, a, -1)
 
 \* _process_recv_msg in its own thread: handle_request, then the result onto the result queue
 \* (a None result still travels so that the slot is given back; pinned F14b: nothing was queued)
@@ -623,9 +632,11 @@ AppRespRun(S, a, n) ==
            S2 == IF x.none THEN S1 ELSE TSend(S1, a, x.m, "app_resp", "F14a")
        IN IF ~S2.tapp[a].resp.alive THEN S2
           ELSE IF S2.tapp[a].resp.stop THEN [S2 EXCEPT !.tapp[a].resp.alive = FALSE]       \* loop top after the item
+          ELSE IF n < 0 THEN [S2 EXCEPT !.tapp[a].resp.dl = S.now + 3]
           ELSE AppRespRun([S2 EXCEPT !.tapp[a].resp.dl = S.now + 3], a, n - 1)
 AppRespEnabled(S, a) == a \in TApps /\ S.tapp[a].resp.alive /\ (S.tapp[a].respQ # <<>> \/ S.now >= S.tapp[a].resp.dl)
 AppRespStep(S, a) == AppRespRun(S, a, 50)
+AppRespOne(S, a) == AppRespRun(S, a, -1)
 
 \* ------------------------------------------------------------------ Node.stop (runs in the caller's thread)
 \* send_dpr: DISCONNECTING first, then the request (cause REBOOTING)
@@ -643,15 +654,19 @@ StopWaitOrJoin(S) ==
 RECURSIVE StopApps(_, _)
 StopApps(S, k) ==
   IF k > Len(AppOrder)
-  THEN Emit([S EXCEPT !.stop.phase = "done"], [ev |-> "stop_done", r |-> "ok", listen |-> 0, nodeThreads |-> IF S.io.done THEN 0 ELSE 1])
+  THEN Emit([S EXCEPT !.stop.phase = "done"], [ev |-> "stop_done", r |-> "ok", listen |-> 0,
+                                              nodeThreads |-> (IF S.io.done THEN 0 ELSE 1) + (IF S.stats.alive THEN 1 ELSE 0)])
   ELSE IF AppOrder[k] \notin TApps THEN StopApps(S, k + 1)
   ELSE [S EXCEPT !.tapp[AppOrder[k]].resp.stop = TRUE, !.tapp[AppOrder[k]].recv.stop = TRUE,
                  !.stop.phase = "joinresp", !.stop.k = k, !.stop.wake = S.now + 2]
+\* the statistics thread: wakes every 2 s, leaves when asked to stop
+StatsEnabled(S) == S.stats.alive /\ S.now >= S.stats.wake
+StatsStep(S) == IF S.stats.stop THEN [S EXCEPT !.stats.alive = FALSE] ELSE [S EXCEPT !.stats.wake = S.now + 2]
 StopEnabled(S) ==
   CASE S.stop.phase = "begin"     -> TRUE
     [] S.stop.phase = "wait"      -> S.now >= S.stop.wake
     [] S.stop.phase = "joinio"    -> S.io.done \/ S.now >= S.stop.wake
-    [] S.stop.phase = "joinstats" -> S.now >= S.stop.wake
+    [] S.stop.phase = "joinstats" -> ~S.stats.alive \/ S.now >= S.stop.wake
     [] S.stop.phase = "joinresp"  -> ~S.tapp[AppOrder[S.stop.k]].resp.alive \/ S.now >= S.stop.wake
     [] S.stop.phase = "joinrecv"  -> ~S.tapp[AppOrder[S.stop.k]].recv.alive \/ S.now >= S.stop.wake
     [] OTHER -> FALSE
@@ -661,8 +676,8 @@ StopStep(S) ==
              S2 == IF S.stop.force THEN S1 ELSE StopDprs(S1, S1.connections)
          IN StopWaitOrJoin(S2)
     [] S.stop.phase = "wait" -> StopWaitOrJoin(S)
-    \* the statistics thread sleeps 2 s at a time (from start, t = 0): join(2) returns at its next wake-up
-    [] S.stop.phase = "joinio" -> [S EXCEPT !.stop.phase = "joinstats", !.stop.wake = IF S.now % 2 = 0 THEN S.now + 2 ELSE S.now + 1]
+    \* _stat_collect_thread.stop(); join(2)
+    [] S.stop.phase = "joinio" -> [S EXCEPT !.stop.phase = "joinstats", !.stats.stop = TRUE, !.stop.wake = S.now + 2]
     \* listening sockets closed, then the applications are stopped one after the other, then stop() returns
     [] S.stop.phase = "joinstats" -> StopApps([S EXCEPT !.listen = "closed"], 1)
     [] S.stop.phase = "joinresp"  -> [S EXCEPT !.stop.phase = "joinrecv", !.stop.wake = S.now + 2]
@@ -694,7 +709,7 @@ ProcReady(S) == UNION {{<<S.tapp[AppOrder[k]].procs[i].id, k, i>> : i \in {j \in
 TRecvReady(S) == {k \in 1..Len(AppOrder) : AppRecvEnabled(S, AppOrder[k])}
 TRespReady(S) == {k \in 1..Len(AppOrder) : AppRespEnabled(S, AppOrder[k])}
 AnyEnabled(S) == RdReady(S) # {} \/ WrReady(S) # {} \/ ProcReady(S) # {} \/ TRecvReady(S) # {} \/ TRespReady(S) # {}
-                 \/ IoEnabled(S) \/ SndReady(S) # {} \/ StopEnabled(S)
+                 \/ IoEnabled(S) \/ StatsEnabled(S) \/ SndReady(S) # {} \/ StopEnabled(S)
 StepPrio(S) == IF RdReady(S) # {} THEN RdStep(S, Min(RdReady(S)))
                ELSE IF WrReady(S) # {} THEN WrStep(S, Min(WrReady(S)))
                ELSE IF ProcReady(S) # {}
@@ -703,6 +718,7 @@ StepPrio(S) == IF RdReady(S) # {} THEN RdStep(S, Min(RdReady(S)))
                ELSE IF TRecvReady(S) # {} THEN AppRecvStep(S, AppOrder[Min(TRecvReady(S))])
                ELSE IF TRespReady(S) # {} THEN AppRespStep(S, AppOrder[Min(TRespReady(S))])
                ELSE IF IoEnabled(S) THEN IoIter(S)
+               ELSE IF StatsEnabled(S) THEN StatsStep(S)
                ELSE IF SndReady(S) # {} THEN SndStep(S, Min(SndReady(S)))
                ELSE StopStep(S)
 RECURSIVE QuiesceN(_, _)
